@@ -1033,4 +1033,82 @@ theorem ring_index_fits_int (r : RingHead) (h : r.WF) (hS : r.size.toNat ≤ 2 ^
   have h2 := h.2
   refine ⟨?_, ?_, by decide⟩ <;> rw [BitVec.toInt_eq_toNat_cond] <;> split <;> omega
 
+/-! ## 22. round 3: igris::ring<char> — bulk and single operations interleaved on one object -/
+
+/-- ring_char_mixed_history: construct `igris::ring<char>(n)`, ANY `n` with
+`n + 1 < 2^32`, and apply ANY interleaving of `write(buf, len)` / `read(buf, len)`
+of ANY length (0, up to the wrap point, across it, the whole ring, more than
+room / more than stored) with `push` and `tail(); pop()` inside the typed ring's
+contract (`runSpecC ≠ none`).  Then no access leaves the buffer, EVERY return value,
+every `tail()` and every byte read equal those of the reference `List Byte` queue
+of capacity `n`, the final ring stores the final reference queue, and
+accepted bytes = delivered bytes ++ stored bytes.  (The C API counterpart with
+putc/getc is `ring_refines_fifo_partial`, which has no size restriction for
+histories without bulk MOVES.) -/
+theorem ring_char_mixed_history (n : Nat) (hn : n + 1 < 2 ^ 32) (ops : List COp) (q' : List Byte)
+    (outs : List COut) (hspec : runSpecC n [] ops = some (q', outs)) :
+    ∃ t', runC (TRing.mk' 0 n) ops = some (t', outs) ∧ Abs t'.r t'.buf q' ∧
+      t'.r.size.toNat = n + 1 ∧ acceptedAllC ops outs = deliveredAllC outs ++ q' := by
+  have ha := (ring_ctor_resize_reset_bounds (0 : Byte) TRing.empty n hn).1
+  obtain ⟨t', e, hs, h'⟩ := runC_refines ops ha.2.2 (by rw [ha.1]; simpa using hspec)
+  have := specC_conserves n ops hspec
+  exact ⟨t', e, h', by rw [hs, ha.1], by simpa using this⟩
+
+example : (runSpecC 2 [] [.write [0xFF, 0x80, 0x00], .pop, .push 7, .read 5, .write [], .read 0]).isSome := by
+  decide
+
+/-! ## 23. round 3: `cyclic_buffer[i]` for every `int i` -/
+
+/-- in a cyclic buffer of `n` samples (any state reached from the constructor /
+`resize` by pushes: `CInv`), `cb[i]` stays inside the array IFF
+`counter − i < n` — every `i ≥ 0`, and the negative `i > counter − n` — and for
+those `i` it addresses the slot of `i mod n`: `cb[i] = cb[i mod n]`, so with
+`cyclic_buffer_nth` the `(i mod n)`-th previous sample.  At `i = counter − n` the
+access is `data[n]` (finding C03-cyclic-index-below-range; model witness
+`ring_counter_beyond_witness`). -/
+theorem cyclic_buffer_index_exact {α : Type} (c : Cyclic α) (n : Nat) (log : List α) (h : CInv c n log)
+    (i : Int) :
+    ((c.nth i).isSome = true ↔ c.counter.counter - i < n) ∧
+    (c.counter.counter - i < n → c.nth i = c.nth (i % (n : Int))) := by
+  obtain ⟨k, hk, hkn⟩ := h.cnt
+  have hpos := h.pos
+  have hs : 0 < c.counter.size := by rw [h.sz]; omega
+  have hnn : (0 : Int) ≤ i % (n : Int) := Int.emod_nonneg _ (by omega)
+  have hprev : ∀ j : Int, c.counter.counter - j < n →
+      rcPrev c.counter j = (c.counter.counter - j) % (n : Int) := by
+    intro j hlt
+    have := rcPrev_eq c.counter hs j (by rw [h.sz]; exact hlt)
+    rw [h.sz] at this; exact this
+  constructor
+  · constructor
+    · intro hsome
+      by_cases hlt : c.counter.counter - i < n
+      · exact hlt
+      · exfalso
+        have e : rcPrev c.counter i = c.counter.counter - i := by
+          unfold rcPrev
+          have : (-(c.counter.counter - i)).toNat = 0 := by omega
+          simp only [this, rcUp]
+        unfold Cyclic.nth Cyclic.at? at hsome
+        rw [e, if_neg (by omega)] at hsome
+        rw [List.getElem?_eq_none (by rw [h.len]; omega)] at hsome
+        simp at hsome
+    · intro hlt
+      unfold Cyclic.nth Cyclic.at?
+      rw [hprev i hlt]
+      have h1 := Int.emod_nonneg (c.counter.counter - i) (show (n : Int) ≠ 0 by omega)
+      have h2 := Int.emod_lt_of_pos (c.counter.counter - i) (show (0 : Int) < n by omega)
+      rw [if_neg (by omega)]
+      have hl : ((c.counter.counter - i) % (n : Int)).toNat < c.data.length := by rw [h.len]; omega
+      rw [List.getElem?_eq_getElem hl]; rfl
+  · intro hlt
+    have hlt2 : c.counter.counter - i % (n : Int) < n := by omega
+    have key : (c.counter.counter - i) % (n : Int) = (c.counter.counter - i % (n : Int)) % (n : Int) := by
+      rw [Int.sub_emod, Int.sub_emod c.counter.counter (i % (n : Int)) n,
+        Int.emod_emod_of_dvd _ (Int.dvd_refl _)]
+    unfold Cyclic.nth
+    rw [hprev i hlt, hprev _ hlt2, key]
+
+example : CInv (Cyclic.mk' (0 : Int) 3) 3 [] := cinv_mk' 0 3 (by decide)
+
 end Igris.C03
